@@ -233,12 +233,32 @@ class Oracles:
         self.O.reverse_cuthill_mckee, self.O.torch = self.saved
 
 
-def run_real_optimiser(matrix, samples, torch_seed=None, oracles=None):
+def snapshot(t):
+    """bit-level picture of a tensor: dtype, shape and the raw bytes (distinguishes -0.0 from 0.0, NaN payloads)"""
+    return (str(t.dtype), tuple(t.shape), t.detach().contiguous().numpy().tobytes())
+
+
+def run_real_optimiser(matrix, samples, torch_seed=None, oracles=None, frame=None):
+    """frame (a dict, optional) receives 'input_unchanged': the tensor handed to minimize_bandwidth is bit-identical
+    after the call (also when the call raised)"""
     import torch
-    from emu_mps.optimatrix import optimiser as O
 
     n = len(matrix)
     m = torch.tensor(matrix, dtype=torch.float64).reshape(n, n)
+    before = snapshot(m)
+    try:
+        return _run_real_optimiser(m, samples, torch_seed, oracles)
+    finally:
+        if frame is not None:
+            frame["input_unchanged"] = snapshot(m) == before
+            if not frame["input_unchanged"]:
+                frame["input_after_call"] = m.tolist()
+
+
+def _run_real_optimiser(m, samples, torch_seed, oracles):
+    import torch
+    from emu_mps.optimatrix import optimiser as O
+
     if torch_seed is not None:
         torch.manual_seed(torch_seed)
     try:
@@ -312,6 +332,121 @@ def gen_matrix(rng, n, symmetric=True):
     return {"style": style, "matrix": m}
 
 
+# ---- frame condition: the public functions are pure functions of their tensor arguments ----------
+# The Coq models are functions: they return a value and cannot touch their argument.  The real functions receive
+# torch tensors by reference (MPSBackendImpl hands minimize_bandwidth the very tensor that
+# SequenceData.interaction_matrix(t) returns), so "model == real code" includes: after the call -- normal return or
+# exception -- every tensor argument is bit-identical (sign bits included) to what was passed in.
+FRAME_SPECIALS = [0.0, -0.0, 1.0, -1.0, 0.5, -0.5, 1e-12, -1e-12, 1e6, -1e6, 3.0, -3.0]
+
+
+def gen_frame_case(rng, n=None):
+    n = rng.randint(1, 12) if n is None else n
+    sign = rng.choice(["mixed", "mixed", "mixed", "negative", "positive"])
+    dens = rng.choice([0.3, 0.7, 1.0])
+    m = [[0.0] * n for _ in range(n)]
+    for i in range(n):
+        for j in range(i):
+            if rng.random() < dens:
+                v = rng.choice(FRAME_SPECIALS) if rng.random() < 0.25 else round(rng.uniform(0.01, 10.0), 6) * rng.choice([1, -1])
+                v = -abs(v) if sign == "negative" else (abs(v) if sign == "positive" else v)
+                m[i][j] = m[j][i] = v
+    if rng.random() < 0.3:
+        for i in range(n):
+            m[i][i] = round(rng.uniform(-5, 5), 6)
+    symmetric = True
+    if n >= 2 and rng.random() < 0.1:  # the asserting path must not have written into the input either
+        i, j = rng.sample(range(n), 2)
+        m[i][j] += 1.0
+        symmetric = False
+    perm = list(range(n))
+    rng.shuffle(perm)
+    amp = max([abs(x) for r in m for x in r] or [0.0])
+    return {"n": n, "sign": sign, "symmetric": symmetric, "matrix": m, "perm": perm,
+            "dtype": rng.choice(["float64", "float64", "float32"]),
+            "layout": rng.choice(["contiguous", "transposed", "view"]),
+            "threshold": round(rng.uniform(0.0, 1.0) * amp, 6), "samples": rng.choice([0, 1, 2]),
+            "torch_seed": rng.randrange(2 ** 31)}
+
+
+def frame_tensor(case):
+    """the matrix as a tensor in the requested memory layout; returns (tensor, base) -- base is the storage owner"""
+    import torch
+
+    n = case["n"]
+    dt = getattr(torch, case["dtype"])
+    m = torch.tensor(case["matrix"], dtype=dt).reshape(n, n)
+    if case["layout"] == "transposed":
+        base = m.T.contiguous()
+        return base.T, base
+    if case["layout"] == "view":
+        base = torch.full((n + 2, n + 3), 7.25, dtype=dt)
+        base[1:n + 1, 2:n + 2] = m
+        return base[1:n + 1, 2:n + 2], base
+    return m, m
+
+
+def frame_calls(case):
+    """name -> callable(m, perm, vec) for every public function of optimiser.py / permutations.py"""
+    import emu_mps.optimatrix.optimiser as O
+    import emu_mps.optimatrix.permutations as P
+
+    n = case["n"]
+    lst = list(range(10, 10 + n))
+    return {
+        "is_symmetric": lambda m, p, v: O.is_symmetric(m),
+        "matrix_bandwidth": lambda m, p, v: O.matrix_bandwidth(m),
+        "minimize_bandwidth_above_threshold": lambda m, p, v: O.minimize_bandwidth_above_threshold(m, case["threshold"]),
+        "minimize_bandwidth_global": lambda m, p, v: O.minimize_bandwidth_global(m),
+        "minimize_bandwidth_impl": lambda m, p, v: O.minimize_bandwidth_impl(m, p),
+        "minimize_bandwidth": lambda m, p, v: O.minimize_bandwidth(m, samples=case["samples"]),
+        "permute_tensor": lambda m, p, v: (P.permute_tensor(m, p), P.permute_tensor(v, p)),
+        "inv_permutation": lambda m, p, v: P.inv_permutation(p),
+        "permute_list": lambda m, p, v: P.permute_list(lst, p),
+        "permute_tuple": lambda m, p, v: P.permute_tuple(tuple(lst), p),
+        "permute_string": lambda m, p, v: P.permute_string("".join("01rgx"[k % 5] for k in range(n)), p),
+        "eye_permutation": lambda m, p, v: P.eye_permutation(n),
+    }
+
+
+def run_frame_case(case, only=None):
+    """[(function, what changed, value after)] for every call that altered one of its tensor arguments"""
+    import torch
+
+    changed, raised = [], {}
+    for name, f in frame_calls(case).items():
+        if only and name != only:
+            continue
+        m, base = frame_tensor(case)
+        p = torch.tensor(case["perm"], dtype=torch.int64)
+        v = torch.tensor([float(k) - 2.5 for k in range(case["n"])], dtype=m.dtype)
+        before = {"matrix": snapshot(m), "matrix-storage": snapshot(base), "perm": snapshot(p), "vector": snapshot(v)}
+        torch.manual_seed(case["torch_seed"])
+        try:
+            f(m, p, v)
+        except Exception as ex:  # noqa: BLE001  (an exception path must not have written into the arguments either)
+            raised[name] = type(ex).__name__
+        after = {"matrix": snapshot(m), "matrix-storage": snapshot(base), "perm": snapshot(p), "vector": snapshot(v)}
+        for k in before:
+            if before[k] != after[k]:
+                changed.append((name, k, {"matrix": m, "matrix-storage": base, "perm": p, "vector": v}[k].tolist()))
+                break
+    return changed, raised
+
+
+def frame_check(ctx, case, hist=None):
+    changed, raised = run_frame_case(case)
+    for name, what, after in changed:
+        ctx.violation(f"{name} wrote into its argument: the {what} passed in is no longer bit-identical after the call "
+                      f"(a caller's tensor -- e.g. the one SequenceData.interaction_matrix(t) hands out -- is altered)",
+                      {"case": case, "function": name, "argument": what, "argument_after_call": after,
+                       "finding_key": "optimatrix-mutates-argument", "stage": "frame"})
+    if hist is not None:
+        for name, exn in raised.items():
+            hist[f"frame/raised/{name}/{exn}"] = hist.get(f"frame/raised/{name}/{exn}", 0) + 1
+    return changed
+
+
 def thresholds_tie(ctx, ev):
     """Model/Optimiser.torch_thresholds == the float32 values torch.arange(0.1, 1.0, 0.01) yields."""
     import torch
@@ -380,8 +515,10 @@ def run(ctx):
                        "torch_seed": ctx.rng.randrange(2 ** 31)})
     pidx = []
     for c in pcases:
-        r = run_real_optimiser(c["matrix"], c["samples"], c["torch_seed"])
+        fr = {}
+        r = run_real_optimiser(c["matrix"], c["samples"], c["torch_seed"], frame=fr)
         c["result"] = r
+        frame_violation(ctx, c, fr, "predicate")
         predicate_check(ctx, c)
         if r[0] == "ok":
             pidx.append((c, ev.add(f"result_ok {zm(c['matrix'])} {nl(r[1])}")))
@@ -407,14 +544,35 @@ def run(ctx):
     ridx = []
     for c in rcases:
         orc = Oracles(c["mode"], c["oracle_seed"], c["rnds"])
-        r = run_real_optimiser(c["matrix"], c["samples"], c["torch_seed"], orc)
+        fr = {}
+        r = run_real_optimiser(c["matrix"], c["samples"], c["torch_seed"], orc, frame=fr)
         c["result"] = r
+        frame_violation(ctx, c, fr, "replay")
         tbl = "[" + "; ".join(f"({zm(k)}, {nl(orc.table[k])})" for k in orc.order) + "]"
         rn = "[" + "; ".join(nl(p) for p in orc.drawn) + "]"
         c["rcm_distinct_calls"] = len(orc.order)
         if c["mode"] != "junk" and c["kind"] == "sym":
             predicate_check(ctx, c)
         ridx.append((c, ev.add(f"minimize_bandwidth (lookup_oracle {tbl}) torch_thresholds {zm(c['matrix'])} {rn}")))
+
+    # ---------------- frame condition: no public function writes into its tensor arguments ----------------
+    fhist = {}
+    fcases = [c["case"] for c in corpus if c.get("stage") == "frame"]
+    fcases += [gen_frame_case(ctx.rng, n) for n in range(1, 13)]
+    fcases += [gen_frame_case(ctx.rng) for _ in range(ctx.n(25, 400))]
+    n_frame_bad = 0
+    for c in fcases:
+        n_frame_bad += len(frame_check(ctx, c, fhist))
+        neg = any(x < 0 for r in c["matrix"] for x in r)
+        ctx.count_case({"stage": "frame", **{k: c[k] for k in ("n", "sign", "dtype", "layout", "torch_seed")}}, c["n"] >= 2 and neg)
+        fhist[f"frame/{c['sign']}/{c['dtype']}/{c['layout']}"] = fhist.get(f"frame/{c['sign']}/{c['dtype']}/{c['layout']}", 0) + 1
+    n_frame_bad += sum(1 for c in pcases + rcases if c.get("input_unchanged") is False)
+    n_signed = sum(1 for c in pcases + rcases if any(x < 0 for r in c["matrix"] for x in r))
+    ctx.extra["frame_cases_with_negative_entries"] = n_signed + sum(1 for c in fcases if any(x < 0 for r in c["matrix"] for x in r))
+    ctx.obligation("frame:every public function of optimatrix leaves its tensor arguments bit-identical (all signs, "
+                   "float32/float64, contiguous / transposed / view inputs, also when it raises)",
+                   n_frame_bad == 0 and n_signed > 0,
+                   f"{n_frame_bad} call(s) altered an argument; inputs with negative entries: {n_signed}", kind="correspondence")
 
     # ---------------- evaluate the model, compare ----------------
     detail = {"helpers": "", "predicate": "", "replay": "", "thresholds": ""}
@@ -453,6 +611,7 @@ def run(ctx):
             if m != r and not detail["replay"]:
                 detail["replay"] = f"model={m} real={r} case={c}"
                 ctx.extra["first_disagreement_replay"] = {"case": c, "model": m, "real": r}
+        hist.update(fhist)
         ctx.extra["input_distribution"] = dict(sorted(hist.items()))
         ctx.extra["rcm_distinct_calls_max"] = max([c["rcm_distinct_calls"] for c in rcases] or [0])
     except (common.CoqEvalError, ValueError) as ex:
@@ -470,7 +629,11 @@ def run(ctx):
                 "optimiser: random symmetric integer matrices n=1..30 (8 structure styles, signs, ties, zero "
                 "rows, diagonals) through the unmodified code (Coq predicate) and n<=7 with SciPy-recorded / "
                 "adversarial / non-permutation RCM answers and scripted or recorded randperm (exact model "
-                "equality); non-trivial = n>=2 (helpers), n>=3 (optimiser); distinct by input hash")
+                "equality); frame: every public function of optimiser.py / permutations.py on float matrices n=1..12 with "
+                "mixed / all-negative / all-positive entries, -0.0, float32 and float64, contiguous / transposed / sliced-"
+                "view inputs, symmetric and not: all tensor arguments (and the storage behind a view) bit-identical after "
+                "the call, also on the exception paths; the same check on every predicate / replay call; "
+                "non-trivial = n>=2 (helpers), n>=3 (optimiser), n>=2 with a negative entry (frame); distinct by input hash")
     ctx.trusted_base += ["hand models Model/Permutations.v, Model/Optimiser.v (validated by the correspondences "
                          "of this run)", "SciPy reverse_cuthill_mckee returns a permutation of 0..n-1 (theorem "
                          "premise; checked on every recorded call)"]
@@ -479,6 +642,15 @@ def run(ctx):
                         "is_symmetric is exact for |entries| < 1e4 (torch.allclose rtol=1e-5)",
                         "the 100-round NotImplementedError is an explicit, allowed outcome; it is proved "
                         "unreachable only when every start has bandwidth < 100"]
+
+
+def frame_violation(ctx, c, fr, stage):
+    c["input_unchanged"] = fr.get("input_unchanged")
+    if fr.get("input_unchanged") is False:
+        ctx.violation("minimize_bandwidth wrote into its argument: the interaction matrix passed in is no longer "
+                      "bit-identical after the call (the caller's tensor is altered)",
+                      {"case": c, "function": "minimize_bandwidth", "argument_after_call": fr.get("input_after_call"),
+                       "finding_key": "optimatrix-mutates-argument", "stage": stage})
 
 
 def predicate_check(ctx, c):
@@ -507,9 +679,15 @@ def replay(ctx, path):
         print("replay helpers:", r)
         helper_property(ctx, c, r)
         return
+    if rp.get("stage") == "frame":
+        changed = frame_check(ctx, c)
+        print("replay frame: arguments altered by", [(name, what) for name, what, _ in changed] or "no call")
+        return
     orc = Oracles(c["mode"], c["oracle_seed"], c.get("rnds")) if "mode" in c else None
-    c["result"] = run_real_optimiser(c["matrix"], c["samples"], c.get("torch_seed"), orc)
-    print("replay optimiser result:", c["result"])
+    fr = {}
+    c["result"] = run_real_optimiser(c["matrix"], c["samples"], c.get("torch_seed"), orc, frame=fr)
+    print("replay optimiser result:", c["result"], "input unchanged:", fr.get("input_unchanged"))
+    frame_violation(ctx, c, fr, rp.get("stage", "predicate"))
     predicate_check(ctx, c)
 
 
@@ -525,7 +703,11 @@ META = {
              "permutation of all atoms whose bandwidth is <= the input's (and <= every restart's), no assertion "
              "or index error can fire, only the explicit NotImplementedError, unreachable when all starting "
              "bandwidths are < 100. Validated only: that the models equal the Python code (exact correspondence "
-             "on generated inputs), SciPy's RCM returning permutations."),
+             "on generated inputs), SciPy's RCM returning permutations; the frame condition that makes a functional "
+             "model adequate -- minimize_bandwidth and every other public function of optimatrix leave their tensor "
+             "arguments bit-identical (signs included; float32/float64, views, exception paths), so the matrix a "
+             "caller such as MPSBackendImpl passes in (the tensor SequenceData.interaction_matrix hands out) is the "
+             "same before and after the ordering was chosen."),
     "note": ("Trusted: Coq kernel+VM, hand models (validated every run), integer-valued matrices (float rounding "
              "of weights outside the theorems), torch.allclose exactness for small integers."),
 }
